@@ -10,6 +10,12 @@ from __future__ import annotations
 
 import datetime as _dt_mod
 import logging
+
+
+class _SinkHandler(logging.Handler):
+    def emit(self, record):  # format the message as a real handler would, keep nothing
+        record.getMessage()
+
 import os
 import random as _random_mod
 import sys
@@ -177,9 +183,14 @@ def load_repid():
     if hasattr(mod, "random"):
         mod.random = _RandomShim
     aiormq.channel.os = _OsShim()
+    # repid's log calls are executed for real (message formatting included - a log call that raises is a bug that
+    # reaches the caller); the records go nowhere
     lg = logging.getLogger("repid")
-    lg.disabled = True
+    lg.disabled = False
     lg.propagate = False
+    lg.setLevel(logging.DEBUG)
+    if not any(isinstance(h, _SinkHandler) for h in lg.handlers):
+        lg.addHandler(_SinkHandler())
     logging.getLogger("asyncio").disabled = True
     logging.getLogger("aiormq").disabled = True
     logging.getLogger("aiormq.connection").disabled = True
